@@ -3,11 +3,13 @@ package props
 import (
 	"bytes"
 	"fmt"
+	"io"
 	"os"
 	"runtime"
 	"strings"
 	"sync"
 	"sync/atomic"
+	"testing/iotest"
 	"time"
 
 	"github.com/anishathalye/porcupine"
@@ -23,7 +25,7 @@ func init() {
 		ID:    "C17",
 		Race:  true,
 		Level: "exploration",
-		Rule: "sequential cases: random history A over schema K (indexes, fks, links, child stores) -> whole-file dump D_A -> snapshot by each route (Snapshot(path), SnapshotInTx inside a read transaction, StreamToWriter) -> further committed transactions -> restore (RestoreSnapshot / RestoreFromReader) -> " +
+		Rule: "sequential cases: random history A over schema K (indexes, fks, links, child stores) -> whole-file dump D_A -> snapshot by each route (Snapshot(path), SnapshotInTx inside a read transaction, StreamToWriter) -> further committed transactions -> restore (RestoreSnapshot / RestoreFromReader with readers that report EOF separately, together with the last bytes, byte-wise, in halves, in 4 kB chunks) -> " +
 			"dump must equal D_A except meta/snapshotId and meta/resetTimeline (exactly equal for the unmarked StreamToWriter route); GetSnapshotId equals the id Snapshot returned; every restore listener fired exactly once; the next GetTimelineId (default or initIfEmpty mode; the database started with a timeline id, without one, or was only asked in default mode) calls the id function exactly once and returns its value, " +
 			"the following two return the same value without calling it (in half of the cases a request whose id function fails comes first: it must return that error and leave the reset pending); the structural monitor is clean against the model of time A and the database accepts further transactions. " +
 			"concurrent cases (race detector): a mutator takes snapshots and restores them (hook sleeps of 0-3 ms between the persist / close / rename / reopen steps), 2 writers rewrite the whole database into stamped state(g), 6 readers verify in every read transaction that the entire content equals state(g) of one generation; " +
@@ -50,13 +52,40 @@ func init() {
 		},
 		Promises: func(core.Tier) map[string][]string {
 			return map[string][]string{"route": {"Snapshot+RestoreSnapshot", "Snapshot+RestoreFromReader", "SnapshotInTx+RestoreSnapshot", "SnapshotInTx+RestoreFromReader", "StreamToWriter+RestoreSnapshot", "StreamToWriter+RestoreFromReader"},
-				"porcupine": {"ok"}, "timeline_after_restore": {"round 0, start initialised", "round 0, start never requested", "round 0, start default on empty", "round 1, start never requested", "failing id function first"}}
+				"porcupine": {"ok"}, "restore_reader": {"bytes.Reader", "data+EOF together", "half reads", "4096-byte chunks, EOF with the last", "single read with EOF"},
+				"timeline_after_restore": {"round 0, start initialised", "round 0, start never requested", "round 0, start default on empty", "round 1, start never requested", "failing id function first"}}
 		},
 		MinCounters: func(core.Tier) map[string]int64 {
 			return map[string]int64{"restores_sequential": 30, "reads_overlapping_a_restore": 20, "restores_concurrent": 30}
 		},
 		WorkerTimeoutS: func(core.Tier) int { return 2400 },
 	})
+}
+
+// eofChunkReader hands out data in chunks and returns io.EOF together with the last bytes (as gzip streams, HTTP bodies
+// with a content length and section readers do).
+type eofChunkReader struct {
+	data  []byte
+	chunk int
+}
+
+func (r *eofChunkReader) Read(p []byte) (int, error) {
+	if len(r.data) == 0 {
+		return 0, io.EOF
+	}
+	n := r.chunk
+	if n > len(p) {
+		n = len(p)
+	}
+	if n > len(r.data) {
+		n = len(r.data)
+	}
+	copy(p, r.data[:n])
+	r.data = r.data[n:]
+	if len(r.data) == 0 {
+		return n, io.EOF
+	}
+	return n, nil
 }
 
 func metaIgnore(e dump.Entry) bool {
@@ -165,16 +194,38 @@ func c17Sequential(c *core.Ctx, idx int) {
 			before[i] = listenerCalls[i].Load()
 		}
 		// restore
+		readerKind := ""
 		if restoreCall == "RestoreSnapshot" {
 			db.RestoreSnapshot(snapBytes)
 		} else {
-			db.RestoreFromReader(bytes.NewReader(snapBytes))
+			// readers differ in how they report the end: on a separate empty read, together with the last bytes, in
+			// small pieces
+			kinds := []string{"bytes.Reader", "data+EOF together", "one byte at a time", "half reads", "4096-byte chunks, EOF with the last", "single read with EOF"}
+			readerKind = kinds[(idx*7+round*5+idx/6)%len(kinds)]
+			if len(snapBytes) > 1<<20 && readerKind == "one byte at a time" {
+				readerKind = "half reads"
+			}
+			c.Cover("restore_reader", readerKind)
+			var rd io.Reader = bytes.NewReader(snapBytes)
+			switch readerKind {
+			case "data+EOF together":
+				rd = iotest.DataErrReader(rd)
+			case "one byte at a time":
+				rd = iotest.OneByteReader(rd)
+			case "half reads":
+				rd = iotest.HalfReader(rd)
+			case "4096-byte chunks, EOF with the last":
+				rd = &eofChunkReader{data: snapBytes, chunk: 4096}
+			case "single read with EOF":
+				rd = &eofChunkReader{data: snapBytes, chunk: len(snapBytes) + 1}
+			}
+			db.RestoreFromReader(rd)
 		}
 		c.Count("restores_sequential", 1)
 		quiesce(baseline)
 		dR := dumpDb(e)
 		c.Eval()
-		info := map[string]any{"cfg": cfg.String(), "route": route, "restore": restoreCall}
+		info := map[string]any{"cfg": cfg.String(), "route": route, "restore": restoreCall, "reader": readerKind}
 		ignore := metaIgnore
 		if route == "StreamToWriter" {
 			ignore = nil
